@@ -42,7 +42,8 @@ RULE = ("1-3 user nodes (UserInput / two-output function node / single-output MA
         "results; ~20% of the steps repeat an earlier step (other spelling), ~20% are near-identical variants "
         "(1 vs '1' vs True vs 1.0, -1 vs -2 and -1.0 vs -2.0 (equal hash()), None vs 'None', a channel vs the string spelling its scoped label, swapped "
         "operands, other receiver); plus a family of identifier labels that make the '_'-join of the label ambiguous; "
-        "each returned node is pulled with p=0.6. Macro family: the same programs written inside a generated macro "
+        "each returned node is pulled with p=0.6; when the node's own run raises, its failed flag is cleared and it "
+        "is pulled again (0-2 times) and must raise the same again. Macro family: the same programs written inside a generated macro "
         "definition (inputs = macro parameters), every binary entry point as x <op> x, slices with one bound used "
         "twice (x[i:i], x[i::i], x[:i:i], x[i:i:i]) and random programs biased to one input feeding both operands of "
         "one operator node; the macro is run and its output compared with python. Non-trivial = at least one node was "
@@ -301,7 +302,8 @@ def gen_step(rng, users, nres, theme):
         if o[0] == "raw" and e == "getitem" and rng.random() < 0.7:
             o = ["raw", rng.choice([I(0), I(1), I(-1), S("a"), S("1"), S("0"), T_] + SLICES)]
         others = [o]
-    return {"k": "op", "e": e, "recv": recv, "others": others, "pull": pull, "sp": rng.randrange(3)}
+    return {"k": "op", "e": e, "recv": recv, "others": others, "pull": pull, "sp": rng.randrange(3),
+            "retry": rng.choice([0, 0, 1, 2])}
 
 
 def near_identical(rng, users, step, theme):
@@ -472,6 +474,26 @@ def macro_node_family():
     return out
 
 
+def retry_family():
+    """an invalid operation pulled, the failed flag cleared, pulled again (twice): it must raise what python
+    raises every time -- also when the first writing already raised and the failed node is found again"""
+    out = []
+    k = 0
+    for e, val, other in [("add", I(1), S("a")), ("getitem", S("abc"), I(5)), ("truediv", I(6), I(0)),
+                          ("mod", I(6), I(0)), ("getattr", I(3), S("zzz")), ("int", S("a"), None), ("len", I(3), None),
+                          ("lt", I(1), S("a")), ("getitem", ["dict", [[I(1), S("a")]]], I(2)), ("neg", S("a"), None)]:
+        for parent in (True, False):
+            for ran in (True, False):
+                k += 1
+                recv = ["chan", 0, 0] if e in CHILD_ACCESS or k % 2 else ["node", 0]
+                users = [{"label": "x", "kind": "mac" if k % 3 == 0 else "ui", "vals": [val], "ran": ran}]
+                others = [] if other is None else [["raw", other]]
+                step = {"k": "op", "e": e, "recv": recv, "others": others, "pull": True, "sp": 0, "retry": 2}
+                steps = [step] if not (ran and parent) else [dict(step, pull=False), step]
+                out.append({"parent": parent, "users": users, "steps": steps})
+    return out
+
+
 def generate(ctx):
     rng = ctx.rng
     cases, seen = [], set()
@@ -484,7 +506,7 @@ def generate(ctx):
     mn = macro_node_family()
     if ctx.quick:
         mn = [c for i, c in enumerate(mn) if (i + ctx.seed) % 2 == 0]
-    hm = hm + framing_family() + hash_twin_family() + mf + mn
+    hm = hm + framing_family() + hash_twin_family() + mf + mn + retry_family()
     for c in hm:
         seen.add(json.dumps(c, sort_keys=True))
         cases.append(c)
@@ -691,6 +713,16 @@ def run_impl(case):
                     pinfo = [_exc_name(e), _exc_name(cause) if cause is not None else None]
                     pl = ["own", _exc_name(e)] if node.failed and _exc_name(e) != "FailedChildError" else ["up"]
                     stopped = True
+                    for _ in range(int(step.get("retry", 0)) if pl[0] == "own" else 0):
+                        node.failed = False            # the documented recovery of a failed node
+                        try:
+                            pl.append(["val", enc(node.pull())])
+                            break
+                        except Exception as e2:     # noqa: BLE001
+                            own = node.failed and _exc_name(e2) != "FailedChildError"
+                            pl.append(["own", _exc_name(e2)] if own else ["up"])
+                            if not own:
+                                break
             obs.append([head, noms, nch, wir, pl, [pinfo, mready, outdiff]])
         return obs
     finally:
@@ -829,9 +861,9 @@ def model_term(case):
     for s in case["steps"]:
         if s["k"] == "op":
             steps.append(f"(SOp {ENTRIES[s['e']][0]} {_ref_coq(s['recv'])} {cl(_ref_coq(r) for r in s['others'])} "
-                         f"{cb(bool(s.get('pull')))})")
+                         f"{cn((1 + int(s.get('retry', 0))) if s.get('pull') else 0)})")
         elif s["k"] == "slice":
-            steps.append(f"(SSlice {_ref_coq(s['recv'])} {' '.join(_ref_coq(r) for r in s['m'])} {cb(bool(s.get('pull')))})")
+            steps.append(f"(SSlice {_ref_coq(s['recv'])} {' '.join(_ref_coq(r) for r in s['m'])} {cn((1 + int(s.get('retry', 0))) if s.get('pull') else 0)})")
         else:
             steps.append(f"(SUnsup {_ref_coq(s['recv'])} {_ref_coq(s['other'])})")
     if _is_macro(case):
@@ -1248,6 +1280,11 @@ def analyse(case, obs):
                 ok = exp[0] == "exc" and pl[1] in (exp[1], "ReadinessError")
                 if not ok:
                     out.append((i, "exception", f"exception: step {i} pull raised {pl[1]}; python gives {_show(exp)}"))
+                for r in pl[2:]:        # failed flag cleared, pulled again: python raises the same again
+                    if ok and r != ["own", exp[1]]:
+                        out.append((i, "exception", f"exception: step {i} pulled again after clearing the failed flag "
+                                                    f"gave {r}; python gives {_show(exp)}"))
+                        break
             else:
                 ok = exp[0] == "upexc" and (
                     (pinfo[0] == "FailedChildError" and (pinfo[1] in exp[1] or pinfo[1] == "ReadinessError"))
